@@ -16,8 +16,8 @@ func c12(c *q.Ctx) {
 	const st = "bcs/ledger/xledger/state::"
 	const ut = "bcs/ledger/xledger/state/utxo::"
 	la := c.NewLockAnalysis("bcs/ledger/xledger/state", "bcs/ledger/xledger/state/utxo", "bcs/ledger/xledger/state/meta", "bcs/ledger/xledger/ledger", "bcs/ledger/xledger/state/xmodel", "bcs/ledger/xledger/tx")
-	la.Pairing(map[string]string{
-		ut + "(*UtxoVM).SelectUtxos": "the early return inside the cache loop is taken only if parseUtxoKeys fails, which is infeasible for keys stored in the cache: they are built by GenUtxoKeyWithPrefix whose last two '_'-separated tokens are always a hex txid and a decimal offset",
+	la.Pairing(map[string]q.PairExempt{
+		ut + "(*UtxoVM).SelectUtxos": {Under: q.Cond{Canon: "(nil == utxo.(*UtxoVM).parseUtxoKeys(p0,key(p0.UtxoCache.Available[p1]))#2)", Sense: false}, Why: "the early return inside the cache loop is taken only if parseUtxoKeys fails, which is infeasible for keys stored in the cache: they are built by GenUtxoKeyWithPrefix whose last two '_'-separated tokens are always a hex txid and a decimal offset"},
 	})
 	ctor := map[string]string{ut + "MakeUtxo": "constructor", ut + "NewUtxoCache": "constructor", ut + "NewSpinLock": "constructor", "bcs/ledger/xledger/state/meta::NewMeta": "constructor: the object is not shared yet", st + "(*State).ClearCache": "replaces the whole UtxoCache object (pointer swap) under the exclusive state lock or on a failed write"}
 	la.GuardedBy("UtxoVM.lockKeys", "UtxoVM.MutexMem", ctor, 6)
